@@ -10,8 +10,9 @@ geometry comes back — is the C++ control flow, branch by branch.
 Quirks kept on purpose (they are what the code does):
 * `fixCollection` calls the *static* `fix(elem)`, which builds a fresh fixer with `isKeepCollapsed = false`: inside a
   GeometryCollection collapses are never kept, whatever the caller asked for;
-* a polygon whose shell collapses is, with keep-collapsed, handed to `fixLineString`, whose `null` becomes
-  `LINESTRING EMPTY` — not `POLYGON EMPTY`;
+* a polygon whose shell collapses is, with keep-collapsed, handed to `fixLineStringElement` (since /repo commit
+  1fc4024a4; before it was `fixLineString`, whose `null` became `LINESTRING EMPTY` instead of `POLYGON EMPTY` and broke
+  idempotence — finding F4 of C17);
 * a MultiLineString with exactly one surviving element returns that element itself (LineString or Point);
 * `getNumGeometries() == 0` (an empty Multi* / collection) is cloned unchanged; an empty atomic geometry is not
   (its `getNumGeometries()` is 1) and goes through its `fixX`.
@@ -94,7 +95,7 @@ def fixLinearRingElement (keep empty : Bool) (clean : Nat) (ringValid : Bool) : 
 /-- `fixPolygonElement` -/
 def fixPolygonElement (keep shellEmpty : Bool) (shellArea : Area) (shellClean nHoles : Nat) (withHoles : Area) : Option Res :=
   if shellArea == .empty then
-    (if keep then some (fixLineString keep shellEmpty shellClean) else none)
+    (if keep then fixLineStringElement keep shellEmpty shellClean else none)
   else if nHoles == 0 then some shellArea.res
   else some withHoles.res
 
